@@ -75,8 +75,8 @@ class Evaluator:
                 return ('?', expr_key(n))
             if cn == 'mk' and n.get('ta'):
                 t = n['ta'][0]
-                if t.startswith('souffle::ram::'):
-                    tr = ('mk', t.split('::')[-1], tuple(self.tree(a, env) for a in call_args(n) if a['k'] != 'CXXDefaultArgExpr'))
+                if t.startswith('souffle::'):
+                    tr = ('mk', t.split('<')[0].split('::')[-1], tuple(self.tree(a, env) for a in call_args(n) if a['k'] != 'CXXDefaultArgExpr'))
                     self.sites.append((tr, n))
                     return tr
             if cn in UNWRAP_CALLS and call_args(n):
